@@ -68,3 +68,47 @@ pub fn c02_seq() {
         }
     }
 }
+
+/// schedule part: two clients, one command each, on one shared key; all interleavings at lock-acquisition granularity
+pub fn c02_race2() {
+    use vstd::sync::Arc;
+    let n = mk_primary();
+    create_db(&n.dbs, "d", "none");
+    let cur = vsym::any_i32("cur");
+    vsym::assume(cur >= 1 && cur < 1000);
+    poke(&n.dbs, "d", "k", &String::from("v0"), cur, ValueStatus::Ok, 0, 0);
+    let a = vsym::choice("opA", 3); let b = vsym::choice("opB", 3);
+    vsym::tag_i("opA", a as i64); vsym::tag_i("opB", b as i64);
+    let d1 = n.dbs.clone(); let d2 = n.dbs.clone();
+    let (mut c1, _rx1) = db_client(&n.dbs, "d"); let (mut c2, _rx2) = db_client(&n.dbs, "d");
+    quiet_client(&c1); quiet_client(&c2); quiet_node(&n.dbs);
+    let t1 = vsym::spawn(move || run_op(&d1, &mut c1, a, cur, "a"));
+    let t2 = vsym::spawn(move || run_op(&d2, &mut c2, b, cur, "b"));
+    let ra = vsym::join(t1); let rb = vsym::join(t2);
+    let fin = peek(&n.dbs, "d", "k").unwrap();
+    // two writers presenting the same base version never both succeed
+    if a == 0 && b == 0 { vsym::check("race.same-base-one-winner", !(ra && rb)); vsym::cover("race.one-winner", ra != rb); }
+    // linearizability against the two sequential orders of the reference map
+    let (a1, b1, v1, ver1) = seq_model(a, b, cur, true);
+    let (a2, b2, v2, ver2) = seq_model(a, b, cur, false);
+    let m1 = ra == a1 && rb == b1 && fin.value == v1 && fin.version == ver1;
+    let m2 = ra == a2 && rb == b2 && fin.value == v2 && fin.version == ver2;
+    vsym::check("race.linearizable", m1 || m2);
+}
+/// op 0: set-safe k <cur> <tag>; op 1: set k <tag>; op 2: get-safe k (always succeeds)
+fn run_op(dbs: &vstd::sync::Arc<Databases>, c: &mut Client, op: usize, cur: i32, tag: &str) -> bool {
+    if op == 0 { is_ok(&process_request(&["set-safe k ", &cur.to_string(), " ", tag].concat(), dbs, c)) }
+    else if op == 1 { is_ok(&process_request(&["set k ", tag].concat(), dbs, c)) }
+    else { match process_request("get-safe k", dbs, c) { Response::Value { .. } => true, _ => false } }
+}
+/// reference map: run A then B (a_first) or B then A; returns (okA, okB, final value, final version)
+fn seq_model(a: usize, b: usize, cur: i32, a_first: bool) -> (bool, bool, String, i32) {
+    let mut val = String::from("v0"); let mut ver = cur;
+    let mut ok = [true, true];
+    let order = if a_first { [(0usize, a, "a"), (1usize, b, "b")] } else { [(1usize, b, "b"), (0usize, a, "a")] };
+    for (who, op, tag) in order.iter() {
+        if *op == 0 { if cur >= ver { val = String::from(*tag); ver = cur + 1; } else { ok[*who] = false; } }
+        else if *op == 1 { val = String::from(*tag); ver = ver + 1; }
+    }
+    (ok[0], ok[1], val, ver)
+}
